@@ -59,6 +59,7 @@ def main():
     scn = dict(scn)
     scn["env"] = {"threads": var.get("threads", 1), "clock": var.get("clock"), "rng_seed": var.get("rng_seed", 1), "cwd": var.get("cwd", "work"), "device_used_before": var.get("device_used_before")}
     scn["observer"] = {"output": var.get("output")}
+    scn["guests"] = list(var.get("guests", []))
     # unrelated work done in the process before the run
     pre = var.get("prework")
     from sim.engine import run_scenario
@@ -113,6 +114,7 @@ def main():
     if sol is not None:
         parts["solution"] = digest_arrays(sol.tdgl_data.psi, sol.tdgl_data.mu, sol.dynamics.dt, sol.times, sol.current_density.magnitude)
     parts["n_updates"] = len(ups)
+    parts["guests_fired"] = len(h.guests_fired)
     parts["threading_layer"] = None
     try:
         parts["threading_layer"] = numba.threading_layer()
